@@ -374,6 +374,34 @@ pub fn check_python(c: &OneCase) -> Verdict {
             }
         }
     }
+    // the batch method of the same object: one row per string, each equal to the model's row of that string;
+    // the batch also holds strings without a single window (empty, shorter than k, only ambiguous bytes)
+    let mut batch: Vec<Vec<u8>> = vec![seq.clone(), Vec::new(), super::c01::utf8_safe(&model::revcomp_text(&raw))];
+    batch.push(super::c01::utf8_safe(&raw[..raw.len().min(c.k.saturating_sub(1))]));
+    batch.push(vec![b'N'; c.k + 2]);
+    batch.push(seq.clone());
+    let hexes: Vec<String> = batch.iter().map(|b| crate::pyworker::hex(b)).collect();
+    match crate::pyworker::ask(&serde_json::json!({"op": "oligo_batch", "k": c.k, "norm": c.norm, "seqs": hexes})) {
+        Err(e) => crate::pyworker::record_error(&mut v, e),
+        Ok(r) => {
+            if !r["ok"].is_array() {
+                crate::pyworker::record_error(&mut v, format!("python answered {}", crate::util::trunc(&r.to_string(), 200)));
+                return v;
+            }
+            let rows: Vec<Vec<f64>> = r["ok"].as_array().map(|a| a.iter().map(|row| row.as_array().map(|x| x.iter().map(|y| y.as_f64().unwrap_or(f64::NAN)).collect()).unwrap_or_default()).collect()).unwrap_or_default();
+            if rows.len() != batch.len() {
+                v.fail("python-batch-rows", format!("vectorise_batch of {} strings returns {} rows", batch.len(), rows.len()));
+                return v;
+            }
+            v.class("python-batch");
+            for (i, (row, b)) in rows.iter().zip(batch.iter()).enumerate() {
+                if let Err((s, m)) = check_vector(row, b, &rt, c.norm, tol) {
+                    v.fail(format!("python-batch-{}", s), format!("pykmertools.OligoComputer({}).vectorise_batch, string {} of {} ({} bytes): {}", c.k, i, batch.len(), b.len(), m));
+                    return v;
+                }
+            }
+        }
+    }
     v
 }
 
